@@ -559,7 +559,28 @@ def _min_cfg(cls, N):
             "MT-unity": {"NW": 1.5, "k": 1}, "MT-eigen": {"NW": 1.5, "k": 1}, "MT-adapt": {"NW": 1.5, "k": 2}}[cls]
 
 
+
+def oracle_daniell(p):
+    """`pdaniell` is an exported PSD class as well.  Its estimate lives on a DECIMATED grid (one value per 2P+1 bins) while the
+    object keeps the NFFT-point frequency axis of its base class: KNOWN FINDING (known_findings.json), not repaired - a repair has
+    to decide what the class's NFFT / df / frequencies() mean on the decimated grid."""
+    import spectrum
+    o = spectrum.pdaniell(np.asarray(p["x"]), p["P"], NFFT=p["nfft"], sampling=p["fs"], scale_by_freq=False)
+    n_psd, n_f = len(np.asarray(o.psd)), len(o.frequencies())
+    if n_psd != n_f:
+        return ["pdaniell(P=%d, NFFT=%d, %s data): psd has %d values but frequencies() has %d" % (
+            p["P"], p["nfft"], "complex" if np.iscomplexobj(p["x"]) else "real", n_psd, n_f)]
+    return []
+
+
+KINDS["daniell"] = {"oracle": oracle_daniell, "key": lambda p: "daniell|%d|%d|%s" % (p["P"], p["nfft"], np.iscomplexobj(p["x"])),
+                    "tags": lambda p: ["daniell"]}
+NO_VARY = set(globals().get("NO_VARY", set())) | {"daniell"}
+
 def gen(rng, nrng, tier):
+    r7 = np.random.default_rng(7)
+    yield ("daniell", {"x": r7.standard_normal(40), "P": 2, "nfft": 32, "fs": 1.0})
+    yield ("daniell", {"x": r7.standard_normal(40) + 1j * r7.standard_normal(40), "P": 2, "nfft": 64, "fs": 2.0})
     NC = len(C.CLASSES)
     quick = tier == "quick"
     # ---- default configurations: class x complex x N x NFFT choice.  quick: every class meets each of the 7 NFFT choices (8 cases per
